@@ -4,7 +4,7 @@
    `f_ok x = true` (Model/Overflow.v) says: no arithmetic site of the Rust function `f` (nor of the callees it
    reaches) panics in a build with overflow checks and debug assertions.  The theorems quantify over ALL
    display-scale inputs (ds_* : |coordinate| <= 1024, extents <= 1024, stroke widths <= 128, offsets within +-128;
-   edge_* : the vertices of the edge lines of a thick segment, |coordinate| <= 1280).
+   edge_* : the vertices of the edge lines of a thick segment, |coordinate| <= 1800).
    Loops: Line::points (bresenham_run, exactly major_length <= 2049 steps), ContiguousPixels (exactly w*h+1 calls),
    text lines (one step per line); the thick-line iterators are covered per step with an inductive invariant.
    C08_sites_covered ties the predicates to the source: it is re-proved against the site table regenerated from
@@ -240,13 +240,13 @@ Theorem C08_miter_total : forall inter mid width,
   miter_ok inter mid width = true.
 Proof. exact miter_total. Qed.
 (* the point used for a join (intersection of two display-scale edge lines that are not nearly colinear, or the end of
-   the first edge) lies within +-13108481: SaturatingAs never saturates and `intersection - mid` cannot overflow *)
+   the first edge) lies within +-25921801: SaturatingAs never saturates and `intersection - mid` cannot overflow *)
 Theorem C08_ip_intersection_bound : forall l1 l2 p,
   edge_line l1 -> edge_line l2 -> nearly_colinear l1 l2 = false ->
-  ip_intersection l1 l2 = Some p -> pbound 13108481 p.
+  ip_intersection l1 l2 = Some p -> pbound 25921801 p.
 Proof. exact ip_intersection_bound. Qed.
 Theorem C08_join_point_bound : forall second first p,
-  edge_line second -> edge_line first -> join_point second first = Some p -> pbound 13108481 p.
+  edge_line second -> edge_line first -> join_point second first = Some p -> pbound 25921801 p.
 Proof. exact join_point_bound. Qed.
 (* LineJoin::from_points on the four edge lines of two display-scale thick segments: intersections, the
    self-intersection test and the miter test are total *)
